@@ -23,7 +23,7 @@ package refcounter
 //@ contract (*RefcounterUint32).IsPresent
 //@   props C06
 //@   requires r != nil && spec_ok(r)
-//@   ensures result == spec_has(r, value)
+//@   ensures[C06] result == spec_has(r, value)
 //@   modifies nothing
 //@   loop 0 vars rangeindex int
 //@   loop 0 invariant forall(k, 0, rangeindex+1, r.items[k].value != value)
@@ -33,6 +33,18 @@ package refcounter
 //@   requires r != nil && spec_ok(r)
 //@   logical v uint32
 //@   old had bool = spec_has(r, v)
-//@   ensures v != value ==> spec_has(r, v) == had
+//@   ensures[C06] v != value ==> spec_has(r, v) == had
 //@   loop 0 vars rangeindex int
 //@   loop 0 invariant forall(k, 0, rangeindex+1, r.items[k].value != value)
+
+// Property C25: the counter's lock is innermost.
+//@ locklevel RefcounterUint32.itemsMu 96
+//@ contract (*RefcounterUint32).IsPresent, (*RefcounterUint32).Remove
+//@   props C25
+//@   acquires 96
+//@   locks C25
+//@ contract (*RefcounterUint32).Add
+//@   props C25
+//@   nosafety
+//@   acquires 96
+//@   locks C25
